@@ -4,6 +4,7 @@ import (
 	"bytes"
 	"context"
 	"fmt"
+	"reflect"
 
 	"github.com/tink-crypto/tink-go/v2/aead"
 	"github.com/tink-crypto/tink-go/v2/aead/aesgcm"
@@ -242,6 +243,20 @@ var statusOf = map[tinkpb.KeyStatusType]keyset.KeyStatus{tinkpb.KeyStatusType_EN
 func BuildHandle(items []Item) (*keyset.Handle, error) {
 	m := keyset.NewManager()
 	for i, it := range items {
+		// keys that carry their own id requirement and are ENABLED go through the PUBLIC path Manager.AddKey
+		// (+ SetPrimary): the keyset id must then come from the key's id requirement, also for id 0
+		if k := it.Key(); k != nil && !isNilKey(k) && hasIDReq(k) && it.Status == tinkpb.KeyStatusType_ENABLED {
+			id, err := m.AddKey(it.Key())
+			if err != nil {
+				return nil, fmt.Errorf("item %d: AddKey: %v", i, err)
+			}
+			if it.Primary {
+				if err := m.SetPrimary(id); err != nil {
+					return nil, fmt.Errorf("item %d: SetPrimary: %v", i, err)
+				}
+			}
+			continue
+		}
 		opts := []keyset.KeyOpts{keyset.WithFixedID(it.ID), keyset.WithStatus(statusOf[it.Status])}
 		if it.Primary {
 			opts = append(opts, keyset.AsPrimary())
@@ -251,6 +266,14 @@ func BuildHandle(items []Item) (*keyset.Handle, error) {
 		}
 	}
 	return m.Handle()
+}
+
+func hasIDReq(k key.Key) bool { _, has := k.IDRequirement(); return has }
+
+// isNilKey reports a typed nil pointer inside the key.Key interface (public-only catalogue entries).
+func isNilKey(k key.Key) bool {
+	v := reflect.ValueOf(k)
+	return v.Kind() == reflect.Ptr && v.IsNil()
 }
 
 // Unit is one type URL of the catalogue: a family, or the public half of an asymmetric family.
